@@ -10,7 +10,11 @@
  * prints what it saw.
  *
  * Encoder actions (C01)
- *   einit kind=K m=M path=direct|array|queue cap=N pre=P msg=<bytes>
+ *   einit kind=K m=M path=direct|array|queue cap=N pre=P consumed=C msg=<bytes>
+ *                     pre: bytes of an earlier finished frame in the same output;
+ *                     consumed: how many of them the reader has taken already
+ *                     (array: finished size reduced, data stays in front;
+ *                      queue: cropped from the ring)
  *   push k=N          offer the next min(N, remaining) bytes
  *   grow n=N          (direct) enlarge the output space by N (relocates)
  *   term              terminate the frame (only when everything was accepted)
@@ -600,7 +604,7 @@ static void act_einit(struct cmd *c)
 			/* an earlier finished frame in the same queue */
 			static const uint8_t one = 0x11;
 			size_t i;
-			mpt_queue_prepare(&equ.data, epre + 4);
+			mpt_queue_prepare(&equ.data, epre + epre / 100 + 16);
 			for (i = 0; i + 2 < epre; i++) if (mpt_queue_push(&equ, 1, &one) != 1) break;
 			if (mpt_queue_push(&equ, 0, 0) < 0) efn = 0;
 			/* the reader wrote part of the finished output out (mpt_stream_flush):
